@@ -223,6 +223,92 @@ template <int K> static void adj_linear_h()
     vf_observe_u64(100 + K);
 }
 
+// the same for N = 1, 3, 4 (linear has one code path per dimensionality and a generic one for N >= 4): storage 2 x 3 x 2 x 2
+template <size_t N> struct dimsN { static constexpr size_t e[4] = {2, 3, 2, 2}; };
+template <size_t N, size_t... Is> static std::index_sequence<N - 1, Is...> rot_seq(std::index_sequence<Is...>);
+template <size_t N> using rot_t = decltype(rot_seq<N>(std::make_index_sequence<N - 1>{}));
+template <size_t N> using AN = cb::array<cv::float1>;
+template <size_t N> using SN = cb::strided<cv::vector_d<size_t, N>, AN<N>>;
+// K: 0 strided, 1 morton portable, 2 shuffle (rotation), 3 clamp, 4 backup, 5 morton pdep
+template <size_t N, int K> struct underN;
+template <size_t N> struct underN<N, 0> { using type = SN<N>; };
+template <size_t N> struct underN<N, 1> { using type = cb::morton<cv::vector_d<size_t, N>, AN<N>, false>; };
+template <size_t N> struct underN<N, 2> { using type = cb::shuffle<SN<N>, rot_t<N>>; };
+template <size_t N> struct underN<N, 3> { using type = cb::clamp<SN<N>>; };
+template <size_t N> struct underN<N, 4> { using type = cb::backup<SN<N>>; };
+template <size_t N> struct underN<N, 5> { using type = cb::morton<cv::vector_d<size_t, N>, AN<N>, true>; };
+
+template <size_t N, class F> static void for_cells(const size_t * d, F && f)
+{
+    size_t total = 1;
+    for (size_t k = 0; k < N; k++) total *= d[k];
+    for (size_t i = 0; i < total; i++) {
+        covfie::array::array<size_t, N> c;
+        size_t r = i;
+        for (size_t k = N; k-- > 0;) { c[k] = r % d[k]; r /= d[k]; }
+        f(c);
+    }
+}
+
+template <size_t N, class L> static typename L::owning_data_t layoutN()
+{
+    typename L::configuration_t s;
+    for (size_t k = 0; k < N; k++) s[k] = dimsN<N>::e[k];
+    typename L::owning_data_t o = [&] {
+        if constexpr (std::is_constructible_v<typename L::owning_data_t, typename L::configuration_t>) return typename L::owning_data_t(s);
+        else return typename L::owning_data_t(s, typename AN<N>::owning_data_t(utility::ipow(utility::round_pow2(size_t(N > 1 ? 3 : 2)), N)));
+    }();
+    typename L::non_owning_data_t v(o);
+    for_cells<N>(dimsN<N>::e, [&](auto c) { v.at(c)[0] = vf_bits<float>(vf_nondet_u32()); });
+    return o;
+}
+
+template <size_t N, int K> static void adj_linearN_h()
+{
+    using X = typename underN<N, K>::type;
+    using R = SN<N>;
+    size_t d[N];       // the coordinates X accepts
+    for (size_t k = 0; k < N; k++) d[k] = dimsN<N>::e[k];
+    if constexpr (K == 2 && N > 1) {
+        for (size_t j = 0; j + 1 < N; j++) d[j] = dimsN<N>::e[j + 1];
+        d[N - 1] = dimsN<N>::e[0];
+    }
+    auto xo = [&] {
+        if constexpr (K == 0 || K == 1 || K == 5) {
+            return layoutN<N, X>();
+        } else if constexpr (K == 3 || K == 4) {
+            typename X::configuration_t c;
+            for (size_t k = 0; k < N; k++) { c.min[k] = 0; c.max[k] = d[k] - 1; }
+            if constexpr (K == 4) c.default_value[0] = vf_bits<float>(vf_nondet_u32());
+            return typename X::owning_data_t(c, layoutN<N, SN<N>>());
+        } else {
+            return typename X::owning_data_t(typename X::configuration_t{}, layoutN<N, SN<N>>());
+        }
+    }();
+    typename R::configuration_t rs;
+    for (size_t k = 0; k < N; k++) rs[k] = d[k];
+    typename R::owning_data_t ro(rs);
+    {
+        typename X::non_owning_data_t xv(xo);
+        typename R::non_owning_data_t rv(ro);
+        for_cells<N>(d, [&](auto c) { rv.at(c)[0] = xv.at(c)[0]; });
+    }
+    using BX = cb::linear<X>;
+    using BR = cb::linear<R>;
+    field<BX> fx(make_parameter_pack(typename BX::owning_data_t(typename BX::configuration_t{}, std::move(xo))));
+    field<BR> fr(make_parameter_pack(typename BR::owning_data_t(typename BR::configuration_t{}, std::move(ro))));
+    typename field<BX>::view_t vx(fx);
+    typename field<BR>::view_t vr(fr);
+    // every cell, offsets 0, 1/4, 3/4 per axis (N <= 3) or 1/4, 3/4 (N = 4): concrete coordinates, symbolic contents
+    const float offs[3] = {0.25f, 0.75f, 0.0f};
+    typename field<BX>::coordinate_t c;
+    for (size_t k = 0; k < N; k++) c[k] = float(vf_nondet_range(0, d[k] - 2)) + offs[vf_nondet_range(0, N <= 3 ? 2 : 1)];
+    auto a = vx.at(c);
+    auto b = vr.at(c);
+    vf_assert(vf::same_bits<float>(a[0], b[0]) || (a[0] != a[0] && b[0] != b[0]), 1);
+    vf_observe_u64(300 + K);
+}
+
 // affine directly above Y: the value Y's own view gives at A c + t (A c + t by the library's algebra, decided by C09)
 template <int Y> struct real_under;
 template <> struct real_under<0> { using type = cb::nearest_neighbour<cb::clamp<S>>; };
